@@ -43,8 +43,22 @@ else:
     modrs = os.path.join(wt, "src/vm/tests/mock_tests/mod.rs")
     mtxt = open(modrs).read()
     runtxt = open(os.path.join(demo, "RUN.md")).read() if os.path.exists(os.path.join(demo, "RUN.md")) else ""
+    # demo modules attached with #[path = "x.rs"] by one of the demo's registration patches live next to the patched file
+    pathmods = {}
+    for d in glob.glob(os.path.join(demo, "*.diff")) + glob.glob(os.path.join(demo, "*.patch")):
+        tgt = None
+        for line in open(d):
+            if line.startswith("+++ b/"):
+                tgt = line[6:].strip()
+            m = re.match(r'^\+\s*#\[path\s*=\s*"([^"]+)"\]', line)
+            if m and tgt:
+                pathmods[m.group(1)] = os.path.dirname(tgt)
     for f in glob.glob(os.path.join(demo, "*.rs")):
         nm = os.path.basename(f)[:-3]
+        if os.path.basename(f) in pathmods:
+            shutil.copy(f, os.path.join(wt, pathmods[os.path.basename(f)]))
+            res.setdefault("demo_install", []).append(["path module " + nm, 0])
+            continue
         if not nm.startswith("mock_test") and (("tests/%s.rs" % nm) in runtxt or ("--test %s" % nm) in runtxt) and ("mock_tests/%s.rs" % nm) not in runtxt:
             # an integration test: goes into the crate's tests/ directory
             shutil.copy(f, os.path.join(wt, "tests/"))
